@@ -393,7 +393,7 @@ func init() {
 	}, []string{"strings whose checksum is NOT valid (covered by C03)", "payload lengths outside the tier's list"},
 		"quick: payload symbol counts {0,1,2,8,33,34,35,40,53,54}, all symbols symbolic, 6 nets x {cash,slp,foreign,unknown prefix} x {with,without prefix} x {lower,upper}", "thorough: every payload length 0..104")
 	meta("C03", []string{
-		"reduction used: an error pattern may be shifted so that its last non-zero symbol is the last symbol of the string (x is invertible modulo the generator; the remainder is GF(2)-affine in the symbols) - so supports containing the last position at the maximal length cover all shorter windows",
+		"reduction used for weights 3..w: an error pattern may be shifted so that its last non-zero symbol is the last symbol of the string (x is invertible modulo the generator; the remainder is GF(2)-affine in the symbols) - so supports containing the last position at the maximal length cover all shorter windows; for weights 1 and 2 the reduction is NOT relied upon: every support anywhere in the string is swept (a decoder with a position-dependent weakness does not respect the shift argument)",
 		"the payload and the prefix cancel out of the acceptance condition; this cancellation is performed by the engine's affine normaliser on the real polyMod/bech32Polymod code for the executed prefix",
 	}, []string{"CashAddr weight-5 patterns on strings longer than 61 symbols (thorough covers weight 5 up to 61 symbols, weight 4 up to 112)", "bech32 human-readable parts other than the executed one (enter only through the affine constant)"},
 		"quick: cashaddr w<=3 at 112 symbols (6105 supports), w<=4 at 42 symbols (10660); bech32 w<=3 at 88 symbols (3741)", "thorough: + cashaddr w<=5 at 42 and 61 symbols, w<=4 at 112; bech32 w<=4 at 88 symbols")
